@@ -12,6 +12,20 @@ class Target(HasTraits):
     q_pb = Int(5)
 
 
+class EqTarget(Target):
+    """A "value object" delegate: all of them compare equal, so that the delegate
+    can be swapped for a distinct object that equals the old one."""
+
+    def __eq__(self, other):
+        return isinstance(other, EqTarget)
+
+    def __ne__(self, other):
+        return not self.__eq__(other)
+
+    def __hash__(self):
+        return 11
+
+
 class Mid(HasTraits):
     uid = Int()
     inner = Instance(Target)
